@@ -755,7 +755,7 @@ def instances(tier):
     if thorough:
         res.append(("history:BD", (["BD"], [3], [1, 2, 3], [1], ["lo", "hi", "mid"], ["lo", "hi"], ["zero"], [1], ["PSK4"], [120]), {}, {"walks": 300, "walk_len": 12}))
         res.append(("history:WBD", (["WBD"], [2], [1, 2, 3], [1, 2], ["lo", "hi"], ["lo", "hi"], ["zero", "hi"], [1], ["PSK4"], [120]), {}, {"walks": 300, "walk_len": 12}))
-        res.append(("history:EBD:attrs", (["EBD"], [2, 3], [2, 3], [1], ["lo", "hi"], ["lo", "hi"], ["zero", "lo", "hi"], [1, 2], ["PSK4"], [120]), {},
+        res.append(("history:EBD:attrs", (["EBD"], [3], [2, 3], [1], ["lo", "hi"], ["lo", "hi"], ["zero", "hi"], [1, 2], ["PSK4"], [120]), {},
                     {"walks": 800, "walk_len": 14, "max_len": 14}))
         res.append(("history:EBD:K2", (["EBD"], [2], [2, 3], [1, 2], ["hi"], ["lo"], ["hi"], [1, 2, 3], ["PSK4", "QAM16"], [120]),
                     {"extras": True}, {"walks": 1500, "walk_len": 14, "max_len": 14}))
@@ -768,7 +768,7 @@ def instances(tier):
     else:
         res.append(("history:BD", (["BD"], [3], [2, 3], [1], ["lo", "hi"], ["lo", "hi"], ["zero"], [1], ["PSK4"], [120]), {}, {"walks": 20, "walk_len": 10}))
         res.append(("history:WBD", (["WBD"], [2], [2, 3], [1], ["lo", "hi"], ["lo"], ["zero", "hi"], [1], ["PSK4"], [120]), {}, {"walks": 20, "walk_len": 10}))
-        res.append(("history:EBD:attrs", (["EBD"], [2], [2], [1], ["lo", "hi"], ["lo", "hi"], ["zero", "hi"], [1], ["PSK4"], [120]), {},
+        res.append(("history:EBD:attrs", (["EBD"], [2], [2], [1], ["lo", "hi"], ["lo"], ["zero", "hi"], [1], ["PSK4"], [120]), {},
                     {"walks": 40, "walk_len": 12, "max_len": 12}))
         res.append(("history:EBD:K2", (["EBD"], [2], [2, 3], [1], ["hi"], ["lo"], ["hi"], [1, 2], ["PSK4"], [120]), {"extras": True},
                     {"walks": 60, "walk_len": 12, "max_len": 12}))
